@@ -575,6 +575,31 @@ fn edge_cases(rep: &Report) {
             });
         }
     }
+    // print commands are answered at a prompt in every spelling of their keywords (opcodes and directives are case
+    // independent); the program itself prints nothing, so whatever names registers / flags is a prompt answer
+    for (name, script) in [("prompt-print-lower-case", &b"print reg\nprint flags\nn\nn\nn\n"[..]), ("prompt-print-upper-case", &b"PRINT REG\nPrint Flags\nn\nn\nn\n"[..]), ("prompt-print-mixed-case", &b"print REG\nPRINT flags\nn\nn\nn\n"[..])] {
+        let src = "start:\nmov ax, 4660\nint 3\nmov bx, 1\n";
+        let out = run_cli(src.as_bytes(), &CliOpts { stdin: script, cap: 4 << 20, timeout_s: 20.0, ..Default::default() });
+        rep.eval(1);
+        rep.distinct_str(&format!("edge|{}", name));
+        if out.timed_out {
+            rep.inconclusive("cli watchdog");
+            continue;
+        }
+        let p = parse_records(&out.stdout);
+        let plain = String::from_utf8_lossy(&p.plain).to_string();
+        let words: Vec<&str> = plain.split(|c: char| !c.is_ascii_alphanumeric()).collect();
+        let regs_shown = words.iter().any(|w| *w == "AX") && words.iter().any(|w| w.ends_with("1234"));
+        let flags_shown = words.iter().any(|w| *w == "CF") && words.iter().any(|w| *w == "ZF");
+        if !out.clean_exit() || !regs_shown || !flags_shown {
+            rep.fail(Failure {
+                sig: format!("edge:{}:not-answered", name),
+                what: "C20: a print command typed at a prompt is not answered".into(),
+                witness: format!("{{\"kind\": \"cli\", \"source\": {}, \"stdin\": {}, \"status\": {}, \"registers_shown\": {}, \"flags_shown\": {}, \"stdout_plain\": {}}}", json_str(src), json_bytes(script), json_str(&out.status_str()), regs_shown, flags_shown, json_str(&plain[..plain.len().min(400)])),
+                core_item: Some(name.to_string()),
+            });
+        }
+    }
     // the same prompts with a stdin on which every read fails (a directory): reported or not, it must end
     let unreadable: Vec<(&str, &str, bool)> = vec![
         ("unreadable-stdin-step", "start:\nstc\nclc\n", true),
